@@ -10,18 +10,22 @@ TRUSTED = ["trees are built without namespace prefixes (add_child's namespace me
 PARTY_KIDS = lambda rng, tg: tg.valid_tree("creator", rng, maxdepth=2)[8]
 
 
+EMPTY_ID = [False]
+
+
 def make_case(rng, tg, fault):
     """a dataset with referenced (id) and referencing parties in any order; optional single fault"""
     n_src = rng.randint(1, 3)
+    EMPTY_ID[0] = rng.random() < 0.15 and fault is None       # one element may carry the id "" - an id like any other
     srcs, items = [], []
     for i in range(n_src):
         el = rng.choice(["creator", "contact", "metadataProvider", "associatedParty"])
         t = tg.valid_tree(el, rng, maxdepth=2)
-        t[5] = [kv for kv in t[5] if kv[0] != "id"] + [["id", f"p{i}"]]
+        t[5] = [kv for kv in t[5] if kv[0] != "id"] + [["id", f"p{i}" if not (i == 1 and EMPTY_ID[0]) else ""]]
         # a referenced element holds no references itself
         t[8] = [k for k in t[8] if k[1] != "references"] or tg.valid_tree("creator", rng, maxdepth=1)[8]
         if any(k[1] == "references" for _, k in gen.nodes_of(t)):
-            t = impl.T(el, None, [impl.T("organizationName", "org")] + ([impl.T("role", "r")] if el == "associatedParty" else []), [["id", f"p{i}"]])
+            t = impl.T(el, None, [impl.T("organizationName", "org")] + ([impl.T("role", "r")] if el == "associatedParty" else []), [["id", dict(t[5])["id"]]])
         # every field of the referenced element's children must arrive in the copies: also tail text (mixed content) and extras
         for pth, x in gen.nodes_of(t):
             if pth and rng.random() < 0.3:
@@ -48,6 +52,8 @@ def make_case(rng, tg, fault):
             if rng.random() < 0.3:
                 refs_.append(impl.T("references", sid))
         for r_ in refs_:
+            if rng.random() < 0.2:
+                r_[5] = [["system", rng.choice(["https://pasta.edirepository.org", "knb", ""])]]     # optional attribute of references
             if rng.random() < 0.3:
                 r_[3] = rng.choice([" ", "\n  ", "text after the reference"])     # the tail of a references node is not part of any copy
         kids = refs_ + ([impl.T("role", "r" + str(j))] if el == "associatedParty" else [])
